@@ -95,3 +95,13 @@ Example C05_ex :
   rr_out (ex_run {| f_pid := protocol_ibc; f_attrs := Some (AInternal "noble1user"); f_pass := "" |} []) =
     OAckErr "invalid destination cross-chain id".
 Proof. vm_compute. repeat split; reflexivity. Qed.
+
+(* ---------- on ANY chain, whatever its Hyperlane hooks charge for gas: a successful transfer succeeds on the
+   chain without charging hooks too and makes exactly the same external calls with exactly the same requests,
+   so the theorems above describe the request that reaches the bridge there as well ---------- *)
+From Orbiter Require Import Proofs.GasHistories.
+Theorem C05_requests_any_hooks : forall g cfg e w p tape,
+  rr_out (recv_gas g cfg e w p tape 0) = OAckOk ->
+  rr_out (recv cfg e w p tape) = OAckOk /\ rr_trace (recv_gas g cfg e w p tape 0) = rr_trace (recv cfg e w p tape).
+Proof. exact success_trace_hooks. Qed.
+Print Assumptions C05_requests_any_hooks.
